@@ -89,6 +89,11 @@ def std_test_hook(txt, node, st):
         return True
     if re.match(r"^\w+ in m\.\w+$", txt):
         return False
+    # the same question asked through dict.get: on a first build the model dictionary has no entry for the key yet
+    if re.match(r"^m\.\w+\.get\(\w+(, None)?\) is None$", txt):
+        return True
+    if re.match(r"^m\.\w+\.get\(\w+(, None)?\) is not None$", txt):
+        return False
     return None
 
 
